@@ -65,7 +65,7 @@ func main() {
 		return
 	}
 	defer r.Finish()
-	r.SetRule("config i = transport (pipe / in-process HTTP / HTTP listener) x debug (on, off, toggled per call) x trace provider (none, valid, dashed UUID, upper-case, half pair either side, 31/33 chars, non-hex, panicking, all of them in turn) x claim redactor (default, default after reset, none, custom, panicking, panicking on one claim, returning empty / nil) x server version / service name / protocol-version gate / response compression level / external storage / producer batch limit / response cap; each config runs 40 calls in its own process: unary value/void/error/panic/parameter mismatch/version refusal/oversized result, producer / exchange / dynamic streams (complete, failing turn, init failure, cancel, client walks away, castable and non-castable input, oversized turn) with per-request caller identity and claim sets (nested values, pattern-edge key names), Accept-Encoding choices, compressed and length-less request bodies; distinct = transport x debug x provider x redactor x call-class sequence")
+	r.SetRule("config i = transport (pipe / in-process HTTP / HTTP listener) x debug (on, off, toggled per call) x trace provider (none, valid, dashed UUID, upper-case, half pair either side, 31/33 chars, non-hex, panicking, all of them in turn) x claim redactor (default, default after reset, none, custom, panicking, panicking on one claim, returning empty / nil) x server version / service name / protocol-version gate / response compression level / external storage / producer batch limit / response cap; each config runs 40 calls in its own process: unary value/void/error/panic/parameter mismatch/version refusal/oversized result/a response whose ResponseWriter accepts only 0, 1, a few, half or all-but-one body bytes and then fails (identity, zstd, gzip), producer / exchange / dynamic streams (complete, failing turn, init failure, cancel, client walks away, castable and non-castable input, oversized turn) with per-request caller identity and claim sets (nested values, pattern-edge key names), Accept-Encoding choices, compressed and length-less request bodies; distinct = transport x debug x provider x redactor x call-class sequence")
 	r.Assume("the upstream access_log.schema.json is not available offline: 'the spec's required fields' are the fields vgirpc/accesslog.go emits unconditionally and CLAUDE.md documents (timestamp, level, logger, message, server_id, protocol, protocol_hash, method, method_type, principal, auth_domain, authenticated, remote_addr, duration_ms, status, error_type) with the types/enums written there; optional fields are type-checked when present")
 	r.Assume("records are attributed to requests by request id: every request of the workload carries a unique id in the request batch and/or X-Request-ID")
 	r.Assume("request_bytes is asserted only for requests that declare a Content-Length (a length-less request reports 0 by documented design); byte counts are body bytes, measured by httptest's recorder in process and by a counting RoundTripper on the listener")
@@ -79,7 +79,8 @@ func main() {
 		"claims.dropped-after-redactor-panic", "claims.absent-when-redactor-returns-none", "claims.verbatim-with-NoClaimRedaction", "claims.custom-redactor-honoured",
 		"bytes.request.verified.identity", "bytes.request.verified.zstd", "bytes.request.verified.gzip",
 		"bytes.response.verified.identity", "bytes.response.verified.zstd", "bytes.response.verified.gzip",
-		"http.request-without-content-length", "http.externalized-result", "http.cap-refusal.unary"}
+		"http.request-without-content-length", "http.externalized-result", "http.cap-refusal.unary",
+		"egress.write-cut-short.identity", "egress.write-cut-short.zstd", "egress.write-cut-short.gzip", "egress.write-cut-short.before-first-byte"}
 	for _, k := range traceKinds {
 		req = append(req, "trace."+k)
 	}
